@@ -15,3 +15,26 @@ func VerifNewGeoSelector(servers map[string]string, latitude, longitude float64)
 func VerifFilterByStateAndGroup(group string, servers map[string]string) {
 	filterByStateAndGroup(group, servers)
 }
+
+// VerifSelectorOrder returns the addresses a selector currently holds, in its internal slice order
+// (the order in which it ranged over the server map).
+func VerifSelectorOrder(s Selector) []string {
+	var out []string
+	switch t := s.(type) {
+	case *randomSelector:
+		out = append(out, t.servers...)
+	case *roundRobinSelector:
+		out = append(out, t.servers...)
+	case *weightedRoundRobinSelector:
+		for _, w := range t.servers {
+			out = append(out, w.Server)
+		}
+	case *consistentHashSelector:
+		out = append(out, t.servers...)
+	case *geoSelector:
+		for _, g := range t.servers {
+			out = append(out, g.Server)
+		}
+	}
+	return out
+}
